@@ -11,7 +11,7 @@ Expr forms (tuples):
   ('proj', e, (field,...))              projection applied to a call/aggregate result
   ('?',)
 """
-from mirlite import op_place, callee, ty_str
+from mirlite import op_place, callee, ty_str, widening_conversion
 from flow import Tracer, NPlace
 
 
@@ -99,6 +99,9 @@ class Ex:
     def of_def(self, d, depth):
         if d[2] == "call":
             t = d[3]
+            w = widening_conversion(t)
+            if w:
+                return ("cast", self._operand(t["args"][0], depth), w[0], "IntToInt", w[1])
             return ("call", callee(t) or "?", tuple(self._operand(a, depth) for a in t["args"]), d[0])
         if d[2] != "assign":
             return None
